@@ -2,9 +2,10 @@
    answer: three predictions "R{..}|P{..}|O{..}" for the library outcomes read error / processing
    error / success, each  exit;stdout;out;cyborg;log;stderr_diag;log_diag;recover
    sink = '-' absent | 0 empty | renderer names joined by '+' ('!' = a failed write) *)
-let name_of_code (c : int) : string =
+let rec name_of_code (c : int) : string =
   match c with
   | 1 -> "H" | 2 -> "HB" | 3 -> "J" | 4 -> "JP" | 5 -> "D" | 6 -> "DB" | 7 -> "HELP" | 99 -> "!"
+  | c when c > 100 -> name_of_code (c - 100) ^ "~"
   | _ -> "?"
 let fmt_sink (l : z list) : string =
   match List.map int_of_z l with
@@ -15,8 +16,10 @@ let b2s b = if b then "1" else "0"
 let fmt_obs o =
   String.concat ";" [string_of_z (o_exit o); fmt_sink (o_stdout o); fmt_sink (o_out o); fmt_sink (o_cyborg o);
                      fmt_sink (o_log o); b2s (o_stderr_diag o); b2s (o_log_diag o); b2s (o_recover o)]
-let cls (s : string) : z =
-  z_of_int (match s with "b" -> 1 | "u" -> 2 | "p" -> 3 | _ -> 0)
+(* g fine | b d r File::create fails | u /dev/full | p.. f.. reader goes away | lim > 0: regular files fail after N bytes *)
+let cls (lim : bool) (s : string) : z =
+  z_of_int (if s = "" then 0 else match s.[0] with
+    | 'b' | 'd' | 'r' -> 1 | 'u' -> 2 | 'p' | 'f' -> 3 | 'g' -> if lim then 4 else 0 | _ -> 0)
 
 let () =
   try
@@ -24,13 +27,14 @@ let () =
       let line = input_line stdin in
       if String.length line > 0 && line.[0] <> '#' then begin
         match split_ws line with
-        | [_input; _sym; modes; brief; pretty; feat; rfa; out; cy; log; verbose; stdout_c; _evil; _noflags] ->
+        | _input :: _sym :: modes :: brief :: pretty :: feat :: rfa :: out :: cy :: log :: verbose :: stdout_c :: _evil :: _noflags :: rest ->
+          let lim = (match rest with l :: _ -> l <> "0" | [] -> false) in
           let has c = String.contains modes c in
           let feat = match feat with "1" -> 1 | "2" -> 2 | _ -> 0 in
           let ((r, p), o) =
             run_case (has 'h') (has 'j') (has 'c') (has 'D') (has 'm') (pretty = "1") (brief = "1")
               (z_of_int feat) (rfa = "1") (out <> "-") (log <> "-") (verbose = "off")
-              (cls out) (cls cy) (cls log) (cls stdout_c) in
+              (cls lim out) (cls lim cy) (cls false log) (cls false stdout_c) in
           print_endline (String.concat "|" [fmt_obs r; fmt_obs p; fmt_obs o])
         | _ -> failwith ("bad case line: " ^ line)
       end
